@@ -32,6 +32,8 @@ def expected(case):
     if op == "and": return ("ok", [args[0] & args[1]])
     if op == "or": return ("ok", [args[0] | args[1]])
     if op == "xor": return ("ok", [args[0] ^ args[1]])
+    if op in ("lshift_n", "rshift_n") and B > args[1] > 10**6:
+        return None
     if op == "lshift_n":
         if args[1] >= B: return ("err", {"outOfRange"})
         return ("ok", [args[0] << args[1]])
